@@ -82,14 +82,14 @@ Lemma to_mux_step c id m gen tm s e :
 Proof. unfold to_mux. cbn. destruct (step _ _ _). reflexivity. Qed.
 
 Lemma srv_refines_from c : forall evs v s, timers_ok c v ->
-  concat (map snd (srv_exec true c v s evs)) =
+  concat (map snd (srv_exec_g true true true c v s evs)) =
   run_from c (mkworld (live_mux v) s) (lower_from c (alive_b v) (length (sv_timers v)) evs).
 Proof.
   induction evs as [|e t IH]; intros v s Hok; [reflexivity|].
   destruct v as [g gen tm]. unfold timers_ok in Hok. cbn [sv_timers] in Hok.
   destruct g as [[id [m|]]|].
   - (* a muxer is alive *)
-    destruct e; cbn [srv_exec srv_step sv_group lower_from].
+    destruct e; cbn [srv_exec_g srv_step sv_group lower_from].
     + (* publish: refused *)
       cbn [map snd concat app]. rewrite IH by exact Hok. reflexivity.
     + rewrite to_mux_step. cbn [map snd concat]. rewrite IH by exact Hok.
@@ -113,7 +113,7 @@ Proof.
         -- cbn [live_mux alive_b sv_group sv_timers run_from step w_mux w_fs apply_all fold_left app]. reflexivity.
         -- unfold timers_ok. cbn [sv_timers]. intros _. apply Hok. discriminate.
   - (* the group is registered, no muxer *)
-    destruct e; cbn [srv_exec srv_step sv_group lower_from to_mux].
+    destruct e; cbn [srv_exec_g srv_step sv_group lower_from to_mux].
     + cbn [run_from live_mux sv_group]. destruct (step c (mkworld None s) EvNew) as [mx o] eqn:E.
       cbn [map snd concat]. rewrite IH by exact Hok.
       assert (Hx : exists m1, mx = Some m1) by (cbn in E; destruct (start_mux c s); injection E as <- _; eauto).
@@ -129,7 +129,7 @@ Proof.
            assert (Ha : arms c = true) by (apply Hok; discriminate). unfold arms in Ha. rewrite Ha. reflexivity.
         -- unfold timers_ok. cbn [sv_timers]. intros _. apply Hok. discriminate.
   - (* no group *)
-    destruct e; cbn [srv_exec srv_step sv_group lower_from to_mux].
+    destruct e; cbn [srv_exec_g srv_step sv_group lower_from to_mux].
     + cbn [run_from live_mux sv_group]. destruct (step c (mkworld None s) EvNew) as [mx o] eqn:E.
       cbn [map snd concat]. rewrite IH by exact Hok.
       assert (Hx : exists m1, mx = Some m1) by (cbn in E; destruct (start_mux c s); injection E as <- _; eauto).
@@ -148,7 +148,7 @@ Qed.
 
 Theorem srv_refines c evs : srv_run c evs = run c (lower c evs).
 Proof.
-  unfold srv_run, srv_run_ev, run, lower. rewrite (srv_refines_from c evs srv0 []); [reflexivity|].
+  unfold srv_run, srv_run_ev, srv_exec, run, lower. rewrite (srv_refines_from c evs srv0 []); [reflexivity|].
   unfold timers_ok. cbn. congruence.
 Qed.
 
@@ -157,7 +157,7 @@ Qed.
 Definition spares_live (r : bool * list op) : Prop := existsb is_removeall (snd r) = true -> fst r = false.
 
 Lemma srv_step_spares c v s e :
-  existsb is_removeall (snd (srv_step true c v s e)) = true -> live_mux v = None /\ e = SvFire.
+  existsb is_removeall (snd (srv_step true true true c v s e)) = true -> live_mux v = None /\ e = SvFire.
 Proof.
   assert (Hs : forall w e0 r, e0 <> EvCleanup -> step c w e0 = r -> existsb is_removeall (snd r) = true -> False).
   { intros w e0 r He <- Hr. rewrite (step_no_ra c w e0 He) in Hr. discriminate. }
@@ -177,23 +177,23 @@ Proof.
     destruct g as [[id [m|]]|]; cbn [orb existsb is_removeall]; try discriminate; auto.
 Qed.
 
-Theorem cleanup_spares_live_from c : forall evs v s, Forall spares_live (srv_exec true c v s evs).
+Theorem cleanup_spares_live_from c : forall evs v s, Forall spares_live (srv_exec_g true true true c v s evs).
 Proof.
   induction evs as [|e t IH]; intros v s; [constructor|].
-  cbn [srv_exec]. pose proof (srv_step_spares c v s e) as H.
-  destruct (srv_step true c v s e) as [v1 o]. cbn [snd] in H.
+  cbn [srv_exec_g]. pose proof (srv_step_spares c v s e) as H.
+  destruct (srv_step true true true c v s e) as [v1 o]. cbn [snd] in H.
   constructor; [|apply IH].
   unfold spares_live. cbn [fst snd]. intros Hra. destruct (H Hra) as [-> _]. reflexivity.
 Qed.
 
 (* the only event that removes the directory is a firing timer *)
 Theorem only_fire_removes c : forall evs v s k e r,
-  nth_error evs k = Some e -> nth_error (srv_exec true c v s evs) k = Some r ->
+  nth_error evs k = Some e -> nth_error (srv_exec_g true true true c v s evs) k = Some r ->
   existsb is_removeall (snd r) = true -> e = SvFire.
 Proof.
   induction evs as [|e0 t IH]; intros v s k e r He Hr Hra; [destruct k; discriminate|].
-  cbn [srv_exec] in Hr. pose proof (srv_step_spares c v s e0) as H.
-  destruct (srv_step true c v s e0) as [v1 o]. cbn [snd] in H.
+  cbn [srv_exec_g] in Hr. pose proof (srv_step_spares c v s e0) as H.
+  destruct (srv_step true true true c v s e0) as [v1 o]. cbn [snd] in H.
   destruct k as [|k]; cbn [nth_error] in *.
   - injection He as <-. injection Hr as <-. cbn [snd] in Hra. now destruct (H Hra).
   - eapply IH; eauto.
@@ -210,3 +210,45 @@ Proof.
   exists (mkcfg [115%N] 1000 1 0 1), (true, [ORemoveAll PDir]).
   split; [vm_compute; tauto|]. split; [reflexivity|]. split; [reflexivity|]. apply cleanup_spares_live_from.
 Qed.
+
+(* ---------- hls.enable / hls.enable_https: the start, stop and cleanup guards ---------- *)
+(* whenever a muxer is started, the stop and (after the fix) the cleanup guard hold too *)
+Lemma guards_consistent g : hls_start_guard g = true -> hls_stop_guard g = true /\ hls_cleanup_guard g = true.
+Proof. unfold hls_start_guard, hls_stop_guard, hls_cleanup_guard. auto. Qed.
+
+(* as shipped, CleanupHlsIfNeeded tested Enable only: with hls on the https port only a muxer is started and its
+   directory is never cleaned up *)
+Lemma cleanup_guard_orig_inconsistent : exists g, hls_start_guard g = true /\ hls_cleanup_guard_orig g = false.
+Proof. exists (mksw false true). split; reflexivity. Qed.
+
+(* every configuration that starts a muxer behaves as the default one; hls off: no call at all *)
+Lemma srv_exec_sw_started g c evs : hls_start_guard g = true -> srv_exec_sw g c evs = srv_exec true c srv0 [] evs.
+Proof.
+  intros H. unfold srv_exec_sw, srv_exec. destruct (guards_consistent g H) as [-> ->]. now rewrite H.
+Qed.
+
+Lemma srv_exec_sw_off g c evs : hls_start_guard g = false -> concat (srv_run_ev_sw g c evs) = [].
+Proof.
+  intros H. unfold srv_run_ev_sw, srv_exec_sw. rewrite H. induction evs as [|e t IH]; [reflexivity|exact IH].
+Qed.
+
+(* ending the input of a stream whose muxer was started: the muxer is disposed (its calls are exactly those of
+   Muxer.Dispose), the group keeps none, and the delayed cleanup is armed exactly when the cleanup mode says so *)
+Lemma stop_finalises g c id m gen tm s :
+  hls_start_guard g = true ->
+  let r := srv_step true (hls_stop_guard g) (hls_cleanup_guard g) c (mksrv (Some (id, Some m)) gen tm) s SvStop in
+  live_mux (fst r) = None /\ snd r = snd (close_fragment c m s true) /\
+  sv_timers (fst r) = (tm ++ (if arms c then [id] else []))%list.
+Proof.
+  intros H. destruct (guards_consistent g H) as [-> ->]. cbn zeta. cbn [srv_step sv_group].
+  rewrite to_mux_step. cbn [fst snd sv_group sv_gen sv_timers live_mux andb].
+  rewrite step_dispose_none. split; [reflexivity|]. split; [|reflexivity].
+  cbn. destruct (close_fragment c m s true). reflexivity.
+Qed.
+
+(* the stop guard of seed C16r5-2 (Enable alone) leaves the muxer of an https-only configuration alive for ever *)
+Lemma stop_guard_http_only_never_disposes c id m gen tm s :
+  let g := mksw false true in
+  hls_start_guard g = true /\
+  srv_step true (sw_http g) (hls_cleanup_guard g) c (mksrv (Some (id, Some m)) gen tm) s SvStop = (mksrv (Some (id, Some m)) gen tm, []).
+Proof. split; reflexivity. Qed.
